@@ -80,11 +80,9 @@ mk apply-len-eq-zero src/bits/bit_field_vec.rs "        if self.is_empty() {
         }
         let bit_width = self.bit_width();
         if bit_width == 0 {
-            return;
-        }" "        let bit_width = self.bit_width();
+            // There is nothing to store" "        let bit_width = self.bit_width();
         if self.len() == 0 || bit_width == 0 {
-            return;
-        }"
+            // There is nothing to store"
 mk iter-explicit-full-width src/bits/bit_field_vec.rs "            let res = self.window & self.vec.mask;
             // bit_width might be W::BITS
             self.window = self.window.checked_shr(bit_width as u32).unwrap_or(W::ZERO);
@@ -204,3 +202,14 @@ mk apply-zero-width-while src/bits/bit_field_vec.rs "            for _ in 0..sel
                 left -= 1;
             }"
 mk mwhc-max-one-std src/func/shard_edge.rs "            self.seg_size = (((n as f64 * 1.23) / 3.).ceil() as usize).max(1);" "            self.seg_size = std::cmp::max(1, ((n as f64 * 1.23) / 3.).ceil() as usize);"
+mk assign-rename-side src/func/vbuilder.rs "            let side = side as usize;
+            unsafe {
+                let xor = match side {" "            let which = side as usize;
+            unsafe {
+                let xor = match which {" "                data.set_unchecked(edge[side], val ^ xor);" "                data.set_unchecked(edge[which], val ^ xor);"
+mk buildloop-rename-func src/func/vbuilder.rs "                Ok(func) => {
+                    return Ok(func);
+                }" "                Ok(built) => {
+                    return Ok(built);
+                }"
+mk rank9-rename-counts src/rank_sel/rank9.rs "        let mut counts = Vec::with_capacity(num_counts + 1);" "        let mut block_counts = Vec::with_capacity(num_counts + 1);" "            counts.push(count);" "            block_counts.push(count);" "        counts.push(BlockCounters {" "        block_counts.push(BlockCounters {" "            counts: counts.into()," "            counts: block_counts.into(),"
